@@ -94,6 +94,7 @@ func init() {
 
 func runC14(c *Ctx) {
 	p := c.P
+	checkHandleValidityFromTable(c, "R7")
 	d := getDispatcher(c, "R1")
 	if d == nil {
 		return
@@ -573,5 +574,39 @@ func checkCloseSites(c *Ctx, rule string) {
 				c.bad(rule, "file.Close in "+fnName(fn), pos(in), "an open file is closed outside closeHandle and the end sweep")
 			}
 		})
+	}
+}
+
+// checkHandleValidityFromTable (C14.R7, shared as C11.R12): whether a handle is valid is decided by the handle table
+// alone, at the moment the request is executed.  A second source of "not found" (a set of handles marked while their
+// CLOSE is still queued, say) refuses reads and writes that were sent before the CLOSE and have not run yet.
+func checkHandleValidityFromTable(c *Ctx, rule string) {
+	p := c.P
+	for _, spec := range []struct{ fn, table string }{{"(*Server).getHandle", "openFiles"}, {"(*RequestServer).getRequest", "openRequests"}} {
+		fn := p.Func(spec.fn)
+		if fn == nil {
+			c.missing(rule, spec.fn)
+			continue
+		}
+		good := true
+		why := ""
+		for _, rl := range returnLeaves(fn, 1) {
+			fromLookup := false
+			if ex, ok := rl.v.(*ssa.Extract); ok && ex.Index == 1 {
+				if lk, ok := ex.Tuple.(*ssa.Lookup); ok && lk.CommaOk {
+					for _, l := range leavesOf(lk.X) {
+						if l.Kind == leafFieldLoad && l.Field == spec.table {
+							fromLookup = true
+						}
+					}
+				}
+			}
+			if !fromLookup {
+				good = false
+				why = rl.v.String()
+			}
+		}
+		c.check(good, rule, spec.fn+" answers from the handle table alone", p.Pos(fn.Pos()), "found == the table lookup's ok",
+			spec.fn+" can report a handle as not found for a reason other than the table lookup ("+why+"): requests that were sent before the handle's CLOSE and are still queued are refused with EBADF")
 	}
 }
